@@ -165,12 +165,23 @@ fn seg(rng: &mut Rng) -> String {
     rng.pick(&pool).to_string()
 }
 
+/// Segments of an absolute path may use everything `pchar` offers: sub-delims, ':' and '@', percent-encoded
+/// octets (kept as they are: a reserved character and its encoding are not equivalent, RFC 3986 section 2.2).
+fn rich_seg(rng: &mut Rng) -> String {
+    let pool = ["a;v=1", "x,y", "(z)", "a+b", "k=v", "a:b", "u@h", "%41", "%2F", "%e9", "!$&*", "~t"];
+    rng.pick(&pool).to_string()
+}
+
 fn clean_path(rng: &mut Rng) -> String {
     let n = rng.usize_in(0, 3);
     let mut s = String::new();
     for _ in 0..n {
         s.push('/');
-        s.push_str(&seg(rng));
+        if rng.chance(1, 4) {
+            s.push_str(&rich_seg(rng));
+        } else {
+            s.push_str(&seg(rng));
+        }
     }
     if rng.chance(1, 3) || n == 0 {
         s.push('/');
@@ -181,6 +192,10 @@ fn clean_path(rng: &mut Rng) -> String {
 fn clean_query(rng: &mut Rng) -> String {
     if rng.chance(1, 2) {
         String::new()
+    } else if rng.chance(1, 4) {
+        // the query is taken over as it stands: '/' and '?' are data there, so are sub-delims and encoded octets
+        // (the apostrophe is left to a workload of its own in C14)
+        format!("?{}", rng.pick(&["a=b&c=d", "q=%20x", "next=/y?z", "p=a+b", "k=;:@!$()*,", "e=%C3%A9&f=%c3%a9", "=", "&&"]))
     } else {
         format!("?{}={}", rng.pick(&["a", "k", "page"]), rng.below(50))
     }
